@@ -462,3 +462,54 @@ def pipeline(ctx, vh, rng, n):
             ctx.violation("double constant 2.5e2 + 0.5 embedded as %r" % d.text, {"case": doc})
         checked += 1
     ctx.coverage["pipeline_documents_checked"] = checked
+    menu_actions(ctx, vh, rng, max(12, n // 4))
+
+
+MENU_ELEMS = [("m1.menuAction()", "m1"), ("m2.menuAction()", "m2"), ("m3.menuAction()", "m3"), ("act", "act"),
+              # calls that are not QMenu::menuAction(): their value is only known at run time, so no constant may be embedded for them
+              ("m2.otherAction()", None), ("m2.actionFor(1)", None), ("bar.menuAction()", None)]
+
+
+def menu_actions(ctx, vh, rng, n):
+    """object references written as X.menuAction(): the one call the static evaluator folds.  The emitted <addaction> names must
+    be exactly the menus named in the source, and a list holding any other call (another method returning QAction*, a method with
+    arguments, menuAction() of a class that is not QMenu; classes from data/c03_menu_metatypes.json) is not a constant at all."""
+    import os
+    os.environ["VERIF_EXTRA_METATYPES"] = C.VERIF + "/data/c03_menu_metatypes.json"
+    docs, metas = [], []
+    singles = [[e] for e in MENU_ELEMS]
+    for i in range(n):
+        els = singles[i] if i < len(singles) else [rng.choice(MENU_ELEMS[:4] if rng.random() < 0.6 else MENU_ELEMS) for _ in range(rng.randrange(1, 5))]
+        doc = ("import qmluic.QtWidgets\nQMainWindow {\n  QAction { id: act }\n  QMenuBar {\n    id: mb\n    QMenu { id: m1 }\n    MyMenu { id: m2 }\n"
+               "    QMenu { id: m3; title: \"T\" }\n    MyBar { id: bar }\n    actions: [%s]\n  }\n}\n" % ", ".join(e[0] for e in els))
+        docs.append(doc)
+        metas.append(els)
+    res = qml.run_docs(vh, docs, mode="generate")
+    os.environ["VERIF_EXTRA_METATYPES"] = ""
+    ok = 0
+    for doc, els, r in zip(docs, metas, res):
+        ctx.count(("menu", doc), True)
+        ctx.dist("menu-static" if all(e[1] for e in els) else "menu-runtime-call")
+        if not isinstance(r, dict) or "panic" in r or "crash" in r:
+            ctx.violation("pipeline crashes on a document with menuAction() references", {"case": doc, "impl_output": r})
+            continue
+        if r.get("ui") is None:
+            if all(e[1] for e in els) and not r["diags"]:
+                ctx.violation("no form and no diagnostic for a constant action list", {"case": doc})
+            continue
+        root = qml.parse_ui(r["ui"])
+        mb = [e for e in root.iter("widget") if e.get("name") == "mb"]
+        got = [a.get("name") for a in mb[0].findall("addaction")] if mb else []
+        # the menus themselves are children of the bar: uigen adds nothing for them unless the binding says so
+        if all(e[1] for e in els):
+            want = [e[1] for e in els]
+            if got != want and not r["diags"]:
+                ctx.violation("object references embedded as %r; the source list denotes %r" % (got, want), {"case": doc, "impl_output": got, "oracle_output": want})
+            else:
+                ok += 1
+        elif got:
+            ctx.violation("a list holding a call whose value is only known at run time is embedded as the constant %r" % got,
+                          {"case": doc, "impl_output": got, "oracle_output": []})
+        else:
+            ok += 1
+    ctx.coverage["menu_action_documents_checked"] = ok
